@@ -23,6 +23,9 @@ PROP = {'drive': ['T2'], 'harness_files': ['area_t2.go'], 'modules': ['SfntV.Pro
                        'C05_quirks_irrelevant',
                        'C05_progress_calls',
                        'C05_quirks_irrelevant_calls',
+                       'C05_agrees_on_encoder_output',
+                       'C04_output_quirk_free',
+                       'C04_glyph_roundtrip_go',
                        'C05_loop_fuel',
                        'C05_step_consumes',
                        'C05_mul_deviates',
@@ -74,6 +77,13 @@ PROP = {'drive': ['T2'], 'harness_files': ['area_t2.go'], 'modules': ['SfntV.Pro
              'checkers evaluated by the driver on the bytes; t2.theorem-domain / t2.theorem-domain-calls show how many '
              'sampled programs lie in the theorems\' domain.',
              'Fuel: C05_loop_fuel / C05_step_consumes for every quirk setting; nested bodies via loop_of_run.',
+             'Bridge to C04 (Proofs/T2Bridge.lean, T2Bridge2.lean): C05_agrees_on_encoder_output = '
+             'C04_output_quirk_free: on every charstring C04\'s compiler model emits for a well-formed glyph '
+             '(GlyphWF), for every choice of edge paths, interp goQuirks = interp strict, under the hypotheses '
+             'operands read back (|step| <= 32767, C04-bigstep) and every path delta within +-32000 (CmdBnd; beyond it '
+             'the Go decoder clamps, C05-clamp); corollary C04_glyph_roundtrip_go: C04\'s round trip for the model of '
+             'the Go decoder. The composition lemmas of T2Header/T2Masks/T2GlyphFull are re-run for goQuirks by '
+             'textual port; the end states are the same strict-drawn states.',
              'Whole CFF files (D stream t2.cfffile, area t2cff): minimal simple and CID-keyed CFF files (1-3 Font '
              'DICTs with different local subroutine tables of 0..33900 entries and different default/nominal widths, '
              'the widths stored as integer or as real DICT operands, glyphs spread over all Font DICTs, local and '
